@@ -2,6 +2,7 @@ package net
 
 import (
 	"math/rand"
+	"sync"
 	"time"
 
 	"github.com/google/uuid"
@@ -85,6 +86,7 @@ func (ne *SimulatedBinaryNetworkEndpoint) Close() error {
 
 type SimulatedNetwork struct {
 	latency   int
+	mu        sync.RWMutex
 	endpoints map[string]chan commontypes.BinaryMessageWithSender
 }
 
@@ -107,13 +109,19 @@ func (sn *SimulatedNetwork) NewFactory() *SimulatedBinaryNetworkEndpointFactory 
 
 func (sn *SimulatedNetwork) RegisterEndpoint(id string) chan commontypes.BinaryMessageWithSender {
 	ch := make(chan commontypes.BinaryMessageWithSender, 1000)
+
+	sn.mu.Lock()
 	sn.endpoints[id] = ch
+	sn.mu.Unlock()
 
 	return ch
 }
 
 func (sn *SimulatedNetwork) SendTo(sender uint8, payload []byte, to string) {
+	sn.mu.RLock()
 	ch, ok := sn.endpoints[to]
+	sn.mu.RUnlock()
+
 	if ok {
 		msg := commontypes.BinaryMessageWithSender{
 			Msg:    payload,
@@ -134,7 +142,15 @@ func (sn *SimulatedNetwork) Broadcast(sender uint8, payload []byte) {
 	// simulate network delay
 	<-time.After(time.Duration(rn) * time.Millisecond)
 
+	// nodes register their endpoints while other nodes are already sending
+	sn.mu.RLock()
+	endpoints := make([]chan commontypes.BinaryMessageWithSender, 0, len(sn.endpoints))
 	for _, ch := range sn.endpoints {
+		endpoints = append(endpoints, ch)
+	}
+	sn.mu.RUnlock()
+
+	for _, ch := range endpoints {
 		msg := commontypes.BinaryMessageWithSender{
 			Msg:    payload,
 			Sender: commontypes.OracleID(sender),
